@@ -92,7 +92,11 @@ Proof. exact tree_in_bounds. Qed.
 Print Assumptions C09_tree_in_bounds.
 
 (* ------------------------------------------------------------------ barrier *)
-(* [bad g = false]: the run respected the preconditions of [thread.barrier] (at most `expected`
+(* Programs: lists of OArrive n (arrive(n), the token is kept), OWait (wait(token)), OArriveWait,
+   ODrop, and OWaitBusy / OArriveWaitBusy (wait / arrive_and_wait with busy_wait_timeout > 0: a
+   busy wait with an oracle-chosen number of polls before the timer expires, then the blocking
+   wait).
+   [bad g = false]: the run respected the preconditions of [thread.barrier] (at most `expected`
    arrivals per phase, no arrival with the phase value of a completed phase, no arrive /
    arrive_and_drop while the completion step runs).
    A wait for phase k returns only after phase k was published, the publication came after
@@ -136,6 +140,50 @@ Theorem C09_barrier_wait_releases : forall E sched progs t old k,
             blog (fst (b_tstep o t (fst c) (snd c t))) = EvDepart t k (phno (fst c)) :: blog (fst c).
 Proof. exact barrier_wait_releases. Qed.
 Print Assumptions C09_barrier_wait_releases.
+
+(* wait(token, busy_wait_timeout) / arrive_and_wait(busy_wait_timeout) with a positive timeout
+   (operations OWaitBusy / OArriveWaitBusy; C09_barrier_no_early_departure and the theorems above
+   quantify over programs that contain them).  The busy wait is one more polling loop in front of
+   the blocking wait; whether its timer has expired at an iteration is the oracle of the step.
+   An expired timer never lets the caller out: the step changes nothing but the thread's program
+   counter, which goes on with the blocking wait for the same token. *)
+Theorem C09_barrier_busy_wait_timeout_falls_back : forall o t g (l : blocal) old k,
+  pcb l = BSpin old k -> timed_out o = true ->
+  fst (b_tstep o t g l) = g /\ snd (b_tstep o t g l) = setpc l (BPoll old k).
+Proof. exact barrier_busy_wait_timeout_falls_back. Qed.
+Print Assumptions C09_barrier_busy_wait_timeout_falls_back.
+
+(* every iteration of the busy wait: keep spinning, fall back to the blocking wait, or return —
+   and it returns only when the phase byte it read differs from the token and the timer had not
+   expired *)
+Theorem C09_barrier_busy_wait_step : forall o t g (l : blocal) old k,
+  pcb l = BSpin old k ->
+  (b_tstep o t g l = (g, l)) \/
+  (b_tstep o t g l = (g, setpc l (BPoll old k))) \/
+  (phase g <> old /\ timed_out o = false /\
+   b_tstep o t g l = (blog_add g (EvDepart t k (phno g)),
+                      {| bprog := tl (bprog l); pcb := BIdle; token := token l; tokk := tokk l |})).
+Proof. exact barrier_busy_wait_step. Qed.
+Print Assumptions C09_barrier_busy_wait_step.
+
+(* a poll of the busy wait after the token's phase completed returns (same side condition as
+   C09_barrier_wait_releases) *)
+Theorem C09_barrier_busy_wait_releases : forall E sched progs t old k,
+  let c := bar_run E sched progs in bad (fst c) = false ->
+  pcb (snd c t) = BSpin old k -> k < phno (fst c) -> phno (fst c) - k < 128 ->
+  forall o, timed_out o = false ->
+            pcb (snd (b_tstep o t (fst c) (snd c t))) = BIdle /\
+            blog (fst (b_tstep o t (fst c) (snd c t))) = EvDepart t k (phno (fst c)) :: blog (fst c).
+Proof. exact barrier_busy_wait_releases. Qed.
+Print Assumptions C09_barrier_busy_wait_releases.
+
+(* only the operations with a positive timeout ever spin: wait(token) / arrive_and_wait() with
+   the default (zero) timeout go to the blocking wait directly *)
+Theorem C09_barrier_busy_wait_only_when_requested : forall E sched progs t old k,
+  let c := bar_run E sched progs in
+  pcb (snd c t) = BSpin old k -> busy_op (bprog (snd c t)) = true.
+Proof. exact barrier_busy_wait_entered. Qed.
+Print Assumptions C09_barrier_busy_wait_only_when_requested.
 
 (* ------------------------------------------------------------------ event *)
 Theorem C09_event_wait_saw_set : forall sched progs t b,
@@ -220,6 +268,22 @@ Example C09_barrier_example :
   let g := fst (bar_run 3 (rr 0 3 40) progs) in
   bad g = false /\ phno g = 2 /\ expected g = 2 /\
   acount 0 (blog g) = 3 /\ acount 1 (blog g) = 2 /\ ccount 0 (blog g) = 1 /\ ccount 1 (blog g) = 1.
+Proof. vm_compute. repeat split. Qed.
+
+(* barrier(2), a straggler and a busy-wait timeout shorter than the skew: thread 0 arrives, polls
+   twice, its timer expires (oracle 1) -> it is in the blocking wait, nobody has departed; then
+   thread 1 arrives late and completes the phase (its own busy wait sees the new phase at its
+   first poll); both leave phase 0 after the publication *)
+Example C09_barrier_busy_wait_example :
+  let progs := fun t => match t with 0 => [OArriveWaitBusy] | 1 => [OArriveWaitBusy] | _ => [] end in
+  let s0 := [(0, 0); (0, 0); (0, 0); (0, 0); (0, 0); (0, 0); (0, 1)] in
+  let c0 := bar_run 2 s0 progs in
+  let c := bar_run 2 (s0 ++ rr 0 2 12) progs in
+  pcb (snd c0 0) = BPoll phase_init 0 /\ blog (fst c0) = [EvArrive 0 0] /\
+  pcb (snd (bar_run 2 (removelast s0) progs) 0) = BSpin phase_init 0 /\
+  bad (fst c) = false /\ phno (fst c) = 1 /\
+  blog (fst c) = [EvDepart 1 0 1; EvDepart 0 0 1; EvPublish 0 1 2 2 0 2; EvCompl 1 0 2 2; EvArrive 1 0; EvArrive 0 0] /\
+  map (fun t => bprog (snd c t)) (seq 0 3) = [[]; []; []].
 Proof. vm_compute. repeat split. Qed.
 
 (* latch(2): two waiters (one hit by a stale resume), a count_down(1) and an arrive_and_wait *)
